@@ -163,8 +163,11 @@ Fixpoint take_while {A} (f : A -> bool) (l : list A) : list A :=
 (** number of children left after the trailing EndOfFile/Indent/Dedent/Implicit are cut *)
 Definition n_keep (cs : list seg) : nat := (length cs - length (take_while seg_strip (rev cs)))%nat.
 
-(** [iter_patches]. [usize] subtraction [a - b > 0] / [!= 0] is modelled as [a <> b]
-    (wrapping, the harness profile; a build with overflow checks panics when a < b). *)
+(** [iter_patches]. The gap test is a comparison, [templated_slice.start > templated_idx] (a child that
+    starts before the running index - code moved backwards by a rule - is "no gap"; before the repair
+    this was a [usize] subtraction that panicked with overflow checks and wrapped without); the tail
+    test is [templated_slice.end != templated_idx], and an inverted tail range is read as the empty
+    string ([get(range)]; the two strings are not part of [patch]). *)
 Fixpoint iter_patches (tf : tfile) (s : seg) : list patch :=
   match s with
   | Leaf _ r p =>
@@ -189,7 +192,7 @@ Fixpoint iter_patches (tf : tfile) (s : seg) : list patch :=
                        loop l' k' sidx tidx (buf ++ raw c)
                      else
                        let fp := first_leaf_pos c in
-                       let gap := if negb (t0 cp =? tidx) || negb (is_empty buf)
+                       let gap := if (tidx <? t0 cp) || negb (is_empty buf)
                                   then [mkPatch sidx (s0 fp) buf] else [] in
                        gap ++ iter_patches tf c ++ loop l' k' (s1 cp) (t1 cp) []
                  | O =>
